@@ -25,8 +25,9 @@ func init() {
 				Procs:    16,
 				Rule: "case = (Left, Right, n). Exhaustive: every pair of line sequences over alphabet 2 x length <= 8, alphabet 3 x length <= 5 and alphabet 4 x length <= 4 (alphabet 2 x length <= 9, alphabet 3 x length <= 6 in thorough), each with every context size n in 0..5 (so n exceeds every gap for short inputs); random repetitive inputs of up to 60 lines with n in 0..8; context sizes 1000, 2^31, 2^40, MaxInt-1 and MaxInt; inputs that are windows of one shared backing array; very large inputs (4100..11700 lines a side, 16400 and 23200 in thorough: length products past 2^24..2^29) whose seam repeats (one of two adjacent identical blocks removed or added), with the middle replaced, with nothing in common at the ends, and with scattered edits; the F4 witnesses as regression cases. " +
 					"In about half of the cases the diff is rendered (Diff.Format with all three formatters) between the stages, before the stage is checked. At each of the three stages every chunk's edits are interpreted against Left[LStart,LEnd) and Right[RStart,REnd); leading/trailing context <= n; after New and after Unify chunks ascending and disjoint (after Unify also not adjacent) and replacing each left range by the chunk's output yields Right; Edits deep-equals its value after New and is itself a correct script; Left/Right are not modified. " +
+					"Every seventh sparse input has 1500..5500 lines and is given a context of 300..6000 lines (values around 512, 1024, 2048, 4096 included). " +
 					"distinct = enumerated (Left, Right, n) triples, random ones by hash; non-trivial = New produced >= 2 chunks and n >= 1 (context of neighbouring chunks can interact)",
-				Required:     []string{"triples", "multi_chunk_triples", "merged_by_unify", "n_exceeds_gap", "f4_witnesses", "aliased_input_triples", "huge_n_triples", "very_large_input_triples", "formats_between_stages", "unify_on_rebuilt_chunks", "long_sparse_input_triples"},
+				Required:     []string{"triples", "multi_chunk_triples", "merged_by_unify", "n_exceeds_gap", "f4_witnesses", "aliased_input_triples", "huge_n_triples", "very_large_input_triples", "formats_between_stages", "unify_on_rebuilt_chunks", "long_sparse_input_triples", "long_sparse_inputs_with_context_in_the_hundreds_or_thousands"},
 				Exhaustive:   true,
 				Assumptions:  []string{"chunk interpreter written from the Chunk field documentation (1-based half-open ranges)"},
 				CoverPkgs:    []string{"github.com/creachadair/mds/mdiff"},
@@ -386,6 +387,11 @@ func runC13(c *fw.Ctx) {
 		}
 		r := c.Rng()
 		nl := 200 + r.IntN(500)
+		long := k%7 == 3
+		if long {
+			// unchanged runs of thousands of lines, with contexts in the hundreds and thousands
+			nl = 1500 + r.IntN(4000)
+		}
 		left := make([]string, nl)
 		for i := range left {
 			left[i] = fmt.Sprint("line ", i)
@@ -405,6 +411,11 @@ func runC13(c *fw.Ctx) {
 		n := (k*7 + c.Block) % 131
 		if k%10 == 9 {
 			n = []int{150, 199, 200, 201, 255, 256, 300}[r.IntN(7)]
+		}
+		if long {
+			big := []int{300, 511, 512, 513, 600, 777, 1000, 1023, 1024, 1025, 1100, 2000, 2047, 2048, 2049, 3000, 4095, 4096, 4097, 6000}
+			n = big[(k/7+c.Block)%len(big)]
+			c.Add("long_sparse_inputs_with_context_in_the_hundreds_or_thousands", 1)
 		}
 		c13check(c, left, right, n)
 		c.Add("triples", 1)
